@@ -104,7 +104,6 @@ def _get_volume_frustum_cone(tree: Tree, *, accuracy: int) -> float:
         if accuracy >= 3:
             v -= sum(sphere.intersect(fc).get_volume() for fc in cones)
             v -= sum(s.intersect(fc).get_volume() for s, fc in zip(children, cones))
-            v += sum(s.intersect(sphere).get_volume() for s in children)
 
         if accuracy >= 5:
             v -= sum(
